@@ -140,7 +140,7 @@ def native_checks(run, seeds):
         except Exception as e:
             if type(e).__name__ != "ModelConstructionError":
                 problems.append(f"unknown parameter raised {type(e).__name__}")
-        for ns, k, rows in ((1, 1, 6), (2, 1, 8)):
+        for ns, k, rows in ((1, 1, 6), (2, 1, 8), (1, 0, 6)):  # the last one: a model WITHOUT controls (process_noise == {})
             run.native_runs += 1
             pr, _ = sklearn_native.fit_problems(seed, rows, ns, k)
             problems += pr
